@@ -340,11 +340,11 @@ pub fn case_shutdown(ctx: &mut Ctx, n: &str, phases: &str, delay: &str) {
         for (i, p) in ph.iter().enumerate() {
             let Some(mut c) = connect(srv.addr) else { return "noconn".to_string() };
             match p {
-                'i' => {
+                'i' | 'I' => {
                     let _ = c.write_all(b"GET /ok HTTP/1.1\r\n\r\n");
                     if read_response(&mut c) != "200/2" { return "setup-failed".to_string(); }
                 }
-                'h' => { let _ = c.write_all(b"GET /ok HTTP/1.1\r\nhost: a"); }
+                'h' | 'H' => { let _ = c.write_all(b"GET /ok HTTP/1.1\r\nhost: a"); }
                 'r' => {
                     let _ = c.write_all(format!("GET /gate/g/{i} HTTP/1.1\r\n\r\n").as_bytes());
                     let id = i.to_string();
@@ -378,6 +378,9 @@ pub fn case_shutdown(ctx: &mut Ctx, n: &str, phases: &str, delay: &str) {
             let first = match p {
                 'i' => { let _ = c.write_all(b"GET /ok HTTP/1.1\r\n\r\n"); read_response(&mut c) }
                 'h' => { let _ = c.write_all(b"\r\n\r\n"); read_response(&mut c) }
+                // upper case: the further requests arrive pipelined in the same write
+                'I' => { let _ = c.write_all(b"GET /ok HTTP/1.1\r\n\r\nGET /ok HTTP/1.1\r\n\r\nGET /ok HTTP/1.1\r\n\r\n"); read_response(&mut c) }
+                'H' => { let _ = c.write_all(b"\r\n\r\nGET /ok HTTP/1.1\r\n\r\nGET /ok HTTP/1.1\r\n\r\n"); read_response(&mut c) }
                 'r' => { release(&i.to_string()); read_response(&mut c) }
                 'b' => { let _ = c.write_all(&[b'x'; 990]); read_response(&mut c) }
                 _ => read_response(&mut c),
@@ -422,7 +425,7 @@ pub fn run_limit(ctx: &mut Ctx) {
 pub fn run_shutdown(ctx: &mut Ctx) {
     let mut rng = Rng::new(ctx.seed.wrapping_add(13));
     let mut idx = 0u64;
-    let phases = ['i', 'h', 'r', 'b', 'w'];
+    let phases = ['i', 'h', 'r', 'b', 'w', 'I', 'H'];
     // fixed schedules first: no connection; every single phase; all slots occupied by idle connections
     let mut cases: Vec<(usize, String)> = vec![(1, "-".to_string()), (3, "-".to_string())];
     for p in phases { cases.push((2, p.to_string())); cases.push((1, p.to_string())); }
@@ -431,7 +434,7 @@ pub fn run_shutdown(ctx: &mut Ctx) {
     for _ in 0..extra {
         let n = rng.range(1, 4) as usize;
         let k = rng.range(1, n as u64) as usize;
-        cases.push((n, (0..k).map(|_| phases[rng.below(5) as usize]).collect()));
+        cases.push((n, (0..k).map(|_| phases[rng.below(7) as usize]).collect()));
     }
     for (n, ph) in cases {
         idx += 1;
